@@ -136,17 +136,6 @@ theorem loadWrap_clean {α : Type} (r : Except PyErr α) (hr : ∀ e, r = .error
   | error e' =>
     rcases hr e' rfl with h' | h' <;> subst h' <;> (simp only [loadWrap] at h; cases h; rfl)
 
-theorem loadWrap_struct {α : Type} (r : Except PyErr α) (hr : ∀ e, r = .error e → e = .mutagen ∨ e = .eof ∨ e = .struct_) :
-    ∀ e, loadWrap r = .error e → e = .mutagen ∨ e = .struct_ := by
-  intro e h
-  cases r with
-  | ok v => cases h
-  | error e' =>
-    rcases hr e' rfl with h' | h' | h' <;> subst h' <;> simp only [loadWrap] at h <;> cases h
-    · exact .inl rfl
-    · exact .inl rfl
-    · exact .inr rfl
-
 /-! ### Opus -/
 namespace Opus
 open Mutagen.Spec.Opus
@@ -216,9 +205,6 @@ end Opus
 namespace Speex
 open Mutagen.Spec.Speex
 
-theorem u32At_ok (pk s : Bytes) (a : Nat) (h : readAt pk a 4 = s) (hl : s.length = 4) : u32At pk a = .ok s := by
-  unfold u32At; simp only [h, hl, ne_eq, not_true_eq_false, ↓reduceIte]
-
 theorem init_build (h : Fields) (ok : h.OK) :
     init (Spec.Speex.build h) = .ok
       { sampleRate := h.rate, channels := h.channels, bitrate := max 0 h.bitrate, serial := h.stream.serial,
@@ -241,8 +227,8 @@ theorem init_build (h : Fields) (ok : h.OK) :
     rw [readAt_skip _ _ _ _ 8 rfl (by decide), readAt_skip _ _ _ _ 20 h1 (by decide)]
     read_field
   have hr0 : ¬ h.rate = 0 := by omega
-  simp only [identPage, List.headD_cons, Bool.not_true, Bool.false_eq_true, ↓reduceIte,
-    u32At_ok _ _ 36 r36 (length_toLE _ _), u32At_ok _ _ 48 r48 (length_toLE _ _), u32At_ok _ _ 52 r52 (length_toSignedLE _ _),
+  have hlen : ¬ (ident h).length < 56 := by simp [ident, length_toSignedLE, h1, h11]
+  simp only [identPage, List.headD_cons, Bool.not_true, Bool.false_eq_true, ↓reduceIte, hlen, r36, r48, r52,
     ofLE_toLE 4 _ (show h.rate < 256 ^ 4 by omega), ofLE_toLE 4 _ (show h.channels < 256 ^ 4 by omega), signed4 _ h10, hr0]
 
 theorem raw_build (h : Fields) (ok : h.OK) : raw (Spec.Speex.build h) = .ok (expected h) := by
@@ -258,32 +244,18 @@ theorem raw_build (h : Fields) (ok : h.OK) : raw (Spec.Speex.build h) = .ok (exp
 theorem parse_build (h : Fields) (ok : h.OK) : parse (Spec.Speex.build h) = .ok (expected h) := by
   unfold parse; rw [raw_build h ok]; rfl
 
-theorem u32At_classes (pk : Bytes) (a : Nat) (e : PyErr) (h : u32At pk a = .error e) : e = .struct_ := by
-  unfold u32At at h
-  simp only [] at h
-  split at h
-  · cases h; rfl
-  · cases h
-
-theorem init_classes (f : Bytes) (e : PyErr) (h : init f = .error e) : e = .mutagen ∨ e = .eof ∨ e = .struct_ := by
+theorem init_classes (f : Bytes) (e : PyErr) (h : init f = .error e) : e = .mutagen ∨ e = .eof := by
   unfold init at h
   split at h
-  · rename_i e' he; cases h
-    rcases findHeader_classes magic f _ he with h' | h'
-    · exact .inl h'
-    · exact .inr (.inl h')
+  · rename_i e' he; cases h; exact findHeader_classes magic f _ he
   · split at h
     · cases h; exact .inl rfl
     · simp only [] at h
       split at h
-      · rename_i e' he; cases h; exact .inr (.inr (u32At_classes _ _ _ he))
+      · cases h; exact .inl rfl
       · split at h
         · cases h; exact .inl rfl
-        · split at h
-          · rename_i e' he; cases h; exact .inr (.inr (u32At_classes _ _ _ he))
-          · split at h
-            · rename_i e' he; cases h; exact .inr (.inr (u32At_classes _ _ _ he))
-            · cases h
+        · cases h
 
 theorem post_classes (f : Bytes) (i : Info) (e : PyErr) (h : post f i = .error e) : e = .mutagen := by
   unfold post at h
@@ -292,42 +264,10 @@ theorem post_classes (f : Bytes) (i : Info) (e : PyErr) (h : post f i = .error e
   · cases h; rfl
   · cases h
 
-theorem raw_classes (f : Bytes) (e : PyErr) (h : raw f = .error e) : e = .mutagen ∨ e = .eof ∨ e = .struct_ := by
+theorem raw_classes (f : Bytes) (e : PyErr) (h : raw f = .error e) : e = .mutagen ∨ e = .eof := by
   unfold raw at h
   split at h
   · rename_i e' he; cases h; exact init_classes f _ he
-  · exact .inl (post_classes f _ _ h)
-
-theorem u32At_long (pk : Bytes) (a : Nat) (h : a + 4 ≤ pk.length) (e : PyErr) : u32At pk a ≠ .error e := by
-  unfold u32At
-  have : (readAt pk a 4).length = 4 := by simp [readAt]; omega
-  simp only [this, ne_eq, not_true_eq_false, ↓reduceIte]
-  intro h'; cases h'
-
-/-- with a header packet of at least 56 bytes nothing but `error` and EOFError -/
-theorem raw_classes_long (f : Bytes) (hlong : ∀ p, findHeader magic f = .ok p → 56 ≤ (p.packets.headD []).length)
-    (e : PyErr) (h : raw f = .error e) : e = .mutagen ∨ e = .eof := by
-  unfold raw at h
-  split at h
-  · rename_i e' he
-    cases h
-    unfold init at he
-    split at he
-    · rename_i e'' he'; cases he; exact findHeader_classes magic f _ he'
-    · rename_i page hp
-      have hl := hlong page hp
-      split at he
-      · cases he; exact .inl rfl
-      · simp only [] at he
-        split at he
-        · rename_i e'' he'; exact absurd he' (u32At_long _ 36 (by omega) _)
-        · split at he
-          · cases he; exact .inl rfl
-          · split at he
-            · rename_i e'' he'; exact absurd he' (u32At_long _ 48 (by omega) _)
-            · split at he
-              · rename_i e'' he'; exact absurd he' (u32At_long _ 52 (by omega) _)
-              · cases he
   · exact .inl (post_classes f _ _ h)
 
 end Speex
@@ -478,9 +418,9 @@ theorem init_build (h : Fields) (ok : h.OK) :
     simp only [List.append_assoc]; rfl
   have s2 : readAt ([1, 0] ++ toBE 2 h.numHeaders ++ [0x66, 0x4C, 0x61, 0x43]) 2 2 = toBE 2 h.numHeaders := by
     simp only [List.append_assoc]; read_field
-  have hl8 : ([1, 0] ++ toBE 2 h.numHeaders ++ [0x66, 0x4C, 0x61, 0x43] : Bytes).length = 8 := by simp
+  have hl13 : ¬ (ident h).length < 13 := by simp [ident, length_streamInfoBytes]
   have hv : ofBE [1] = 1 ∧ ofBE [0] = 0 := by decide
-  simp only [identPage, List.headD_cons, r5, hl8, ne_eq, not_true_eq_false, ↓reduceIte, s4, s0, s1, s2, hv.1, hv.2, and_self,
+  simp only [identPage, List.headD_cons, hl13, r5, ne_eq, not_true_eq_false, ↓reduceIte, s4, s0, s1, s2, hv.1, hv.2, and_self,
     hd, hsi, ofBE_toBE 2 _ (show h.numHeaders < 256 ^ 2 by omega)]
 
 theorem raw_build (h : Fields) (ok : h.OK) : raw (Spec.OggFlac.build h) = .ok (expected h) := by
@@ -498,16 +438,13 @@ theorem raw_build (h : Fields) (ok : h.OK) : raw (Spec.OggFlac.build h) = .ok (e
 theorem parse_build (h : Fields) (ok : h.OK) : parse (Spec.OggFlac.build h) = .ok (expected h) := by
   unfold parse; rw [raw_build h ok]; rfl
 
-theorem init_classes (f : Bytes) (e : PyErr) (h : init f = .error e) : e = .mutagen ∨ e = .eof ∨ e = .struct_ := by
+theorem init_classes (f : Bytes) (e : PyErr) (h : init f = .error e) : e = .mutagen ∨ e = .eof := by
   unfold init at h
   split at h
-  · rename_i e' he; cases h
-    rcases findHeader_classes magic f _ he with h' | h'
-    · exact .inl h'
-    · exact .inr (.inl h')
+  · rename_i e' he; cases h; exact findHeader_classes magic f _ he
   · simp only [] at h
     split at h
-    · cases h; exact .inr (.inr rfl)
+    · cases h; exact .inl rfl
     · split at h
       · cases h; exact .inl rfl
       · split at h
@@ -525,36 +462,10 @@ theorem post_classes (f : Bytes) (i : Info) (e : PyErr) (h : post f i = .error e
     · cases h; rfl
     · cases h
 
-theorem raw_classes (f : Bytes) (e : PyErr) (h : raw f = .error e) : e = .mutagen ∨ e = .eof ∨ e = .struct_ := by
+theorem raw_classes (f : Bytes) (e : PyErr) (h : raw f = .error e) : e = .mutagen ∨ e = .eof := by
   unfold raw at h
   split at h
   · rename_i e' he; cases h; exact init_classes f _ he
-  · exact .inl (post_classes f _ _ h)
-
-/-- with a header packet of at least 13 bytes nothing but `error` and EOFError -/
-theorem raw_classes_long (f : Bytes) (hlong : ∀ p, findHeader magic f = .ok p → 13 ≤ (p.packets.headD []).length)
-    (e : PyErr) (h : raw f = .error e) : e = .mutagen ∨ e = .eof := by
-  unfold raw at h
-  split at h
-  · rename_i e' he
-    cases h
-    unfold init at he
-    split at he
-    · rename_i e'' he'; cases he; exact findHeader_classes magic f _ he'
-    · rename_i page hp
-      have hl := hlong page hp
-      simp only [] at he
-      split at he
-      · rename_i hs
-        exfalso; apply hs
-        simp only [readAt, List.length_take, List.length_drop]; omega
-      · split at he
-        · cases he; exact .inl rfl
-        · split at he
-          · cases he; exact .inl rfl
-          · split at he
-            · cases he; exact .inl rfl
-            · cases he
   · exact .inl (post_classes f _ _ h)
 
 end OggFlac
